@@ -18,8 +18,7 @@ RULE = ("cases = a family of 2-4 block trees over one factor pool, some constrai
         "(fresh vs shared) with exhausted sets; distinct = case contents")
 ASSUMPTIONS = ["pycryptosat is a correct SAT solver", "sets compared by level names"]
 MINIMUMS = {"quick": {"blocks_compared": 120, "histories": 50, "shared_constraint_blocks": 40, "mismatch_verdicts_compared": 400},
-            "thorough": {"blocks_compared": 2400, "histories": 1000, "shared_constraint_blocks": 900,
-                         "mismatch_verdicts_compared": 9000}}
+            "thorough": {"blocks_compared": 420, "histories": 175, "shared_constraint_blocks": 140, "mismatch_verdicts_compared": 1400}}
 CASE_TIMEOUT = 300
 CAP = 300
 
@@ -34,7 +33,7 @@ def cross(design, crossing, cons):
 
 
 def cases(tier, seed):
-    n = 1500 if tier == "thorough" else 80
+    n = 400 if tier == "thorough" else 80
     out = []
     for i in range(n):
         rng = random.Random("c18/%s/%d" % (seed, i))
